@@ -15,7 +15,7 @@ import random
 
 from .. import cfgadapter, codec, common, replay, tlc, tracecheck
 
-ALL_INV = ["C01_AllValid", "C12_Fresh", "C15_Error"]
+ALL_INV = ["C01_AllValid", "C12_Fresh", "C15_Error", "C15_DictItemError"]
 ALL_PROP = ["C01_Readback", "C06_Unchanged", "C12_Marks", "C12_Reset", "C13_Isolated", "C02_Reproduces", "C11_ItemsInserted"]
 
 BASE_CFG = """CONSTANTS
@@ -410,6 +410,9 @@ def driver(cinco, desc, seed, n_traces, length):
                             ]
                         )
                     ev = {"op": "COp", "n": n, "p": list(path), "k": key, "o": o}
+                    if f["kind"] == "dict" and rng.random() < 0.25:
+                        # the dotted-path route to one entry of the map
+                        ev = {"op": "SetDictItem", "n": n, "p": list(path), "k": key, "dk": list(rng.choice(["k", "K", "m", "q2"])), "v": rnd_leaf_value(rng, f["valf"])}
                 if ev.get("v", {}).get("t") == "cfgobj":
                     # a ready-made Config of the sub-schema, in its default state; the spec needs its state
                     sub = cfgadapter.schema_field(cinco, w.schema, ev["p"] + [ev["k"]])
